@@ -16,8 +16,8 @@ LEVEL = "exploration"
 RULE = ("random consumer sequences (length 1-10, repeated and reordered, producers shared between lists) over pools of finished "
         "results; every built-in command of the CSV and NetCDF library sets is a consumer; distinct by (library set, rank, sequence "
         "of consumer command names up to 4, list arities)")
-REQUIRED_COUNTERS = ["digest_rechecks", "consumer_executions", "results_watched", "model_runs"]
-ASSUMPTIONS = ["values stored under the mask are excluded from the digest", "NaN never generated"]
+REQUIRED_COUNTERS = ["digest_rechecks", "consumer_executions", "results_watched", "model_runs", "nonfinite_fields_watched"]
+ASSUMPTIONS = ["values stored under the mask are excluded from the digest", "NaN / infinite cells are compared by their bits"]
 
 
 def cases(ctx):
@@ -30,7 +30,15 @@ def cases(ctx):
         nf = rng.randint(2, 3)
         nonfuzzy = [arr.gen_array(rng, shape, rng.choice(arr.DTYPES_Q), distinct2=True, payload=rng.choice(arr.PAYLOADS)) for _ in range(nn)]
         fuzzy = [arr.gen_array(rng, shape, "float64", fuzzy=True, distinct2=True, payload=rng.choice([0.0, 0.5, 1e30])) for _ in range(nf)]
-        yield {"libs": libs, "shape": list(shape), "nonfuzzy": nonfuzzy, "fuzzy": fuzzy, "steps": rng.randint(1, 10), "rseed": rng.randrange(10 ** 9)}
+        case = {"libs": libs, "shape": list(shape), "nonfuzzy": nonfuzzy, "fuzzy": fuzzy, "steps": rng.randint(1, 10), "rseed": rng.randrange(10 ** 9)}
+        if rng.random() < 0.15:
+            # a float field holding NaN / infinities at non-missing cells (0/0 and x/0 in the source data)
+            nf = arr.gen_array(rng, shape, "float64", distinct2=True, payload=rng.choice(arr.PAYLOADS))
+            for j in range(len(nf["data"])):
+                if rng.random() < 0.3:
+                    nf["data"][j] = rng.choice(["nan", "inf", "-inf"])
+            case["nonfinite"] = nf
+        yield case
     from mpv import models
     for i in range(ctx.n(300, 15000)):
         yield {"kind": "model", "model": models.gen_model(rng, n_ops=rng.randint(2, 12), sinks=True, libs="nc" if i % 3 == 0 else "csv")}
@@ -140,6 +148,10 @@ def run_case(ctx, case):
         f0 = arr.build(case["fuzzy"][0])
         arr.standin(prog, "Fx", f0.reshape((1,) + f0.shape).copy(), fuzzy=True)
         pool["fuzzy"].append("Fx")
+    if case.get("nonfinite"):
+        ctx.count("nonfinite_fields_watched")
+        arr.standin(prog, "Nn", arr.build(case["nonfinite"]), fuzzy=False)
+        pool["nonfuzzy"].append("Nn")
     recorded = _digests(prog)
     seqnames = []
     template = None
